@@ -182,7 +182,19 @@ def check_special_receivers(rep, spec):
     base = f @ s_ >> g @ monoidal.Id(y) >> monoidal.Id(x) @ e_ >> f
     wide = f @ f @ monoidal.Box('k', y, y)
     derived = [wide[::-1], wide[:2], wide[1:], (wide >> wide[::-1])[1:5], base[::-1], base[1:3], base[::-1][1:], wide[2:0:-1]]
-    for d in layered + special + derived:
+    # receivers that went through downgrade (boxes of a semantic class rebuilt as plain boxes: the layers must hold the
+    # rebuilt boxes too), as whole diagrams and box by box
+    from discopy import tensor as _tensor
+    D2 = _tensor.Dim(2)
+    ta, tb_, tc = _tensor.Box('a', _tensor.Dim(1), D2, [1, 2]), _tensor.Box('b', D2, D2 @ D2, list(range(8))), \
+        _tensor.Box('c', D2, _tensor.Dim(1), [3, 4])
+    tsc = _tensor.Box('s', _tensor.Dim(1), _tensor.Dim(1), [5])
+    tdiag = ta @ tsc @ ta >> tb_ @ tc
+    cdiag = gates.Ket(0) @ gates.Ket(1) >> gates.H @ gates.X >> gates.Bra(0) @ qc.Id(1)
+    downgraded = [tdiag.downgrade(), cdiag.downgrade(), tdiag.downgrade()[::-1], tdiag.downgrade()[1:],
+                  ta.downgrade() @ tsc.downgrade() @ ta.downgrade() >> tb_.downgrade() @ tc.downgrade(),
+                  gates.Ket(0).downgrade() @ gates.Ket(1).downgrade() >> gates.H.downgrade() @ gates.X.downgrade()]
+    for d in layered + special + derived + downgraded:
         n = len(d)
         for i in range(-1, n + 1):
             for j in range(-1, n + 1):
@@ -209,5 +221,6 @@ def check_special_receivers(rep, spec):
                         rep.fail('C01:interchange.wf', why, inp)
                     expected = list(d.boxes)
                     expected.insert(j, expected.pop(i))
-                    if (r.dom, r.cod) != (d.dom, d.cod) or r.boxes != expected:
+                    if (r.dom, r.cod) != (d.dom, d.cod) or r.boxes != expected or [type(b) for b in r.boxes] != [type(b) for b in expected] \
+                            or [type(tuple(l)[1]) for l in r.layers.boxes] != [type(b) for b in expected]:
                         rep.fail('C05:box_order', 'dom / cod / boxes of the result: %r' % (r,), inp)
